@@ -14,11 +14,15 @@ EXTENDS Edge
 
 \* ---------- per-edge evaluation ----------
 CompactRows(d, conv) == CompactRowsC(d, conv)
+\* a vertex is given by integer lattice data (t, r) or by exact rationals (tq, rq) - the latter for transformed graphs
+VPose(v) == IF "tq" \in DOMAIN v
+            THEN [k |-> v.k, t |-> Vec([c \in 1..Len(v.tq) |-> DC(v.tq[c])]), r |-> Vec([c \in 1..Len(v.rq) |-> DC(v.rq[c])])]
+            ELSE Lift(v.k, v.t, v.r)
 RECURSIVE OffsetIn(_,_,_)
 OffsetIn(kinds, j, acc) == IF j = 1 THEN acc ELSE OffsetIn(Tail(kinds), j - 1, acc + CDim(kinds[1]))
 \* poses of the vertices an edge names, each perturbed along its own block of tangent directions
 EdgePoses(g, e) == LET ks == [j \in 1..Len(e.vs) |-> g.verts[e.vs[j]].k]
-                   IN [j \in 1..Len(e.vs) |-> LET v == g.verts[e.vs[j]] IN Pert(Lift(v.k, v.t, v.r), OffsetIn(ks, j, 0))]
+                   IN [j \in 1..Len(e.vs) |-> LET v == g.verts[e.vs[j]] IN Pert(VPose(v), OffsetIn(ks, j, 0))]
 EdgeErr(g, e) ==
   LET P == EdgePoses(g, e) IN
   CASE e.cls = "odo" -> CompactRows(OdoDelta(P[1], P[2], Lift(P[1].k, e.tz, e.rz)), g.conv)
@@ -34,7 +38,7 @@ EdgeErr(g, e) ==
 \* scalar part of the SE(3) error quaternion of an odometry-type edge (1 otherwise): its sign separates the two conventions, 0 = half turn
 EdgeW(g, e) == IF e.cls = "odo" /\ g.verts[e.vs[1]].k = "SE3"
                THEN LET v1 == g.verts[e.vs[1]]  v2 == g.verts[e.vs[2]] IN
-                    OdoErrW(Lift(v1.k, v1.t, v1.r), Lift(v2.k, v2.t, v2.r), Lift(v1.k, e.tz, e.rz))
+                    OdoErrW(VPose(v1), VPose(v2), Lift(v1.k, e.tz, e.rz))
                ELSE QI(1)
 \* rational part of the error (0 in the slot of an angle atom) and the unit vector of the atom slot
 ERat(err) == [i \in 1..Len(err) |-> IF IsAng(err[i]) THEN QI(0) ELSE err[i].v]
@@ -90,4 +94,26 @@ Normal(g) ==
        chi2 |-> [n \in 1..E |-> Chi2Form(packs[n].err, g.edges[n].W)],
        errs |-> [n \in 1..E |-> EOut(packs[n].err)],
        ws |-> [n \in 1..E |-> EdgeW(g, g.edges[n])] ]
+
+\* ---------- change of world frame ----------
+\* T: [k, t, r] lattice data of a rigid motion of the graph's pose kind (a translation for R^n graphs); every vertex is left-composed with T
+\* (a point vertex of an SE(n) graph is acted upon).
+Moved(g, T) ==
+  LET Tp == Lift(T.k, T.t, T.r) IN
+  [g EXCEPT !.verts = [j \in 1..Len(g.verts) |->
+      LET v == g.verts[j]  p == VPose(v)
+          q == IF v.k = T.k THEN Comp(Tp, p) ELSE [k |-> v.k, t |-> Act(Tp, p.t), r |-> <<>>]
+      IN [k |-> v.k, fixed |-> v.fixed, tq |-> VOut(q.t), rq |-> VOut(q.r)]]]
+\* The tangent coordinates of a pose vertex are body-frame (boxplus is right multiplication): invariant under T.  A point vertex is updated
+\* additively in world coordinates: its tangent coordinates rotate with T.  P(g,T) is that block-diagonal change of coordinates (free part).
+FrameP(g, T) ==
+  LET free == FreeIdx(g)  nf == Len(free)  R == RotMat(Lift(T.k, T.t, T.r)) IN
+  [a \in 1..nf |-> [b \in 1..nf |->
+     LET va == VertexOf(g, free[a])  vb == VertexOf(g, free[b]) IN
+     IF va # vb THEN QI(0)
+     ELSE IF IsPoint(g.verts[va].k) /\ ~IsPoint(T.k) THEN R[free[a] - GOff(g, va)][free[b] - GOff(g, va)].v
+     ELSE IF a = b THEN QI(1) ELSE QI(0)]]
+QMatMul(A, Bm) == LET n == Len(A) IN [r \in 1..n |-> [c \in 1..n |-> QCanon(QSumF([l \in 1..n |-> QMul(A[r][l], Bm[l][c])], n))]]
+QMatVec(A, x) == LET n == Len(A) IN [r \in 1..n |-> QCanon(QSumF([l \in 1..n |-> QMul(A[r][l], x[l])], n))]
+QTranspose(A) == LET n == Len(A) IN [r \in 1..n |-> [c \in 1..n |-> A[c][r]]]
 =========================================================================
